@@ -72,7 +72,7 @@ struct Relay {
         // an address picked here can be taken by another process before the relay binds it
         for (int attempt = 0; attempt < 4; attempt++) {
             start_once(f, b);
-            if (ok || err != "relay exited at start") return;
+            if (ok) return;
         }
     }
     void start_once(int f, int b)
@@ -131,7 +131,8 @@ struct Relay {
                 bool up = false;
                 for (int k = 0; k < 200; k++) { int rc = x_finish(probe); if (rc == 0) { up = true; break; } if (errno != EAGAIN) break; usleep(1000); }
                 x_close(probe);
-                if (up) { ok = true; break; }
+                // (whoever answered may be somebody else's listener on a port this relay lost the race for)
+                if (up) { usleep(3000); if (!alive()) { err = "relay exited at start"; return; } ok = true; break; }
             }
             usleep(5000);
         }
@@ -145,13 +146,26 @@ struct Relay {
             usleep(2000);
         }
     }
+    pid_t last_pid = -1;
     bool alive()
     {
         if (pid <= 0) return false;
+        last_pid = pid;
         int st;
         pid_t r = waitpid(pid, &st, WNOHANG);
         if (r == pid) { exit_status = st; pid = -1; ok = false; return false; }
         return true;
+    }
+    // how the relay went down and what it said last (its stdout/stderr go to a file of its own)
+    std::string obituary()
+    {
+        if (pid > 0 || last_pid <= 0) return "";
+        char head[64];
+        snprintf(head, sizeof(head), " [exit status 0x%x; last output: ", exit_status);
+        std::string log = pki::read_file(tmpdir() + "/relay-" + std::to_string((long)last_pid) + ".log");
+        if (log.size() > 300) log = log.substr(log.size() - 300);
+        for (auto &ch : log) if (ch == '\n') ch = '|';
+        return std::string(head) + log + "]";
     }
     int exit_status = 0;
     void stop()
@@ -365,7 +379,7 @@ public:
         cn.a.s = call(cn.a, [&] { return xcm_connect_a(r.front_addr.c_str(), a); });
         int e = errno;
         xcm_attr_map_destroy(a);
-        VF_CHECK(cn.a.s != nullptr, "C20: connect to the relay's front address failed: %s (relay process %s)", errname(e), r.alive() ? "alive" : "EXITED");
+        VF_CHECK(cn.a.s != nullptr, "C20: connect to the relay's front address failed: %s (relay process %s)%s", errname(e), r.alive() ? "alive" : "EXITED", r.obituary().c_str());
         cn.a.closed = false;
         cn.a.fd = x_fd(cn.a);
         uint8_t nonce[8], got[8];
@@ -405,8 +419,8 @@ public:
             }
             if (!paired) usleep(300);
         }
-        VF_CHECK(paired, "C20: the relay did not open a working connection to the server for client connection %d within 6 s (relay process %s; %s)", i, r.alive() ? "alive" : "EXITED",
-                 cn.b.s ? "a connection was accepted but the client's first message did not arrive" : "nothing to accept");
+        VF_CHECK(paired, "C20: the relay did not open a working connection to the server for client connection %d within 6 s (relay process %s; %s)%s", i, r.alive() ? "alive" : "EXITED",
+                 cn.b.s ? "a connection was accepted but the client's first message did not arrive" : "nothing to accept", r.obituary().c_str());
         cn.b.fd = x_fd(cn.b);
         return Outcome::pass();
     }
